@@ -15,8 +15,16 @@ type Cfg struct {
 	ServerVersion string // 0..50 bytes
 	NHeaderSizes  int    // entries of the post-header length table (>= highest type used, >= 27)
 	ExtraLen      int    // v2 rows: bytes of extra data (beyond the 2-byte length)
-	ServerID      uint32
-	CreateTS      uint32
+	// ExtraKind (v2 rows): 0 opaque bytes (ExtraLen of them), 1 partition info as an 8.0.16+ master writes it
+	// for a partitioned table (type 1, partition id; UPDATE also carries the source partition id), 2 NDB info
+	// (type 0, length, format, payload), 3 NDB info followed by partition info
+	ExtraKind int `json:",omitempty"`
+	// HdrFlags != 0: event headers carry the flag bits a master sets (thread-specific / suppress-use on
+	// statements, no-filter / MTS-isolate anywhere, ignorable on the event types a replica may skip,
+	// binlog-in-use on the format description), chosen per event from this seed; 0: all header flags 0
+	HdrFlags uint32 `json:",omitempty"`
+	ServerID uint32
+	CreateTS uint32
 	// PadBits: how the unused high bits of the last bitmap byte are filled in rows events:
 	// 0 zeros; 1 ones in per-row NULL bitmaps (what mysqld's pack_row leaves behind);
 	// 2 ones in NULL bitmaps and in presence bitmaps (bitmap_set_all)
@@ -182,7 +190,11 @@ func (h *History) FDEBytes(logPos uint32) []byte { return h.FDEBytesCRC(logPos, 
 // FDEBytesCRC builds a format description event announcing the given checksum setting.
 func (h *History) FDEBytesCRC(logPos uint32, crc bool) []byte {
 	body := refenc.FDEBody(4, h.Cfg.ServerVersion, h.Cfg.CreateTS, 19, h.sizes(), algOf(crc))
-	return refenc.BuildEvent(refenc.Header{Timestamp: h.Cfg.CreateTS, Type: refenc.EvFormatDesc, ServerID: h.Cfg.ServerID, LogPos: logPos}, body, true)
+	fl := uint16(0)
+	if h.Cfg.HdrFlags&1 != 0 {
+		fl = 0x1 // LOG_EVENT_BINLOG_IN_USE_F: the file is the master's active one
+	}
+	return refenc.BuildEvent(refenc.Header{Timestamp: h.Cfg.CreateTS, Type: refenc.EvFormatDesc, ServerID: h.Cfg.ServerID, LogPos: logPos, Flags: fl}, body, true)
 }
 
 // FDESize is the size of the format description event.
@@ -291,7 +303,50 @@ func (h *History) RowsBody(r *RowsEv, last bool) []byte {
 	for i := range extra {
 		extra[i] = byte(0xE0 + i)
 	}
+	if h.Cfg.ExtraKind != 0 {
+		extra = nil
+		if h.Cfg.ExtraKind >= 2 {
+			n := h.Cfg.ExtraLen % 9 // payload bytes
+			extra = append(extra, 0, byte(2+n), 0x7f)
+			for i := 0; i < n; i++ {
+				extra = append(extra, byte(0xA0+i))
+			}
+		}
+		if h.Cfg.ExtraKind == 1 || h.Cfg.ExtraKind == 3 {
+			pid := uint16(h.Cfg.ExtraLen*37) ^ uint16(t.ID)
+			extra = append(extra, 1, byte(pid), byte(pid>>8))
+			if r.Kind == 1 {
+				src := uint16(h.Cfg.ExtraLen) // 0 is a legitimate source partition
+				extra = append(extra, byte(src), byte(src>>8))
+			}
+		}
+	}
 	return refenc.RowsBodyPad(h.Cfg.TableIDBytes, t.ID, flags, h.Cfg.RowsV2, extra, len(t.Cols), r.Present1, p2, rows, h.Cfg.PadBits >= 2)
+}
+
+// hdrFlags derives the header flag bits of event number idx (see Cfg.HdrFlags).
+func (h *History) hdrFlags(typ byte, idx int) uint16 {
+	if h.Cfg.HdrFlags == 0 {
+		return 0
+	}
+	x := h.Cfg.HdrFlags*2654435761 ^ uint32(idx+1)*40503
+	x ^= x >> 13
+	x *= 2246822519
+	x ^= x >> 16
+	var mask, always uint16
+	switch typ {
+	case refenc.EvQuery:
+		mask = 0x4 | 0x8 | 0x100 | 0x200
+	case refenc.EvIgnorable, refenc.EvRowsQuery, refenc.EvTxContext, refenc.EvViewChange, refenc.EvUnknown:
+		always, mask = 0x80, 0x100
+	case refenc.EvRotate, refenc.EvStop:
+	default:
+		mask = 0x100 | 0x200
+	}
+	if x&3 != 0 { // three events in four carry nothing optional
+		mask = 0
+	}
+	return always | uint16(x>>8)&mask
 }
 
 // Lay lays the history out into events with exact offsets.
@@ -310,6 +365,7 @@ func (h *History) Lay() (*Layout, error) {
 		if end > 0xffffffff {
 			return fmt.Errorf("offset overflow")
 		}
+		flags |= h.hdrFlags(typ, len(l.Events))
 		b := refenc.BuildEvent(refenc.Header{Timestamp: ts, Type: typ, ServerID: h.Cfg.ServerID, LogPos: uint32(end), Flags: flags}, body, crc)
 		l.Events = append(l.Events, Ev{File: file, Start: off, End: end, Bytes: b, Unit: unit, Commit: commit, Type: typ, Rotate: typ == refenc.EvRotate})
 		off = end
